@@ -37,7 +37,7 @@ RULE = ("Configuration = sampler {mh, mhcustom with a deterministic contraction,
         "nburnout 0-6 x step size x dim 1-3 x f output {scalar, vector, tuple, constant, its own argument, a view of it, a stored tensor} x backward-only sampler options x parameters of f and of log p "
         "{explicit tensors, held by one of 12 EditableModule / nn.Module kinds, f and log p on the same object or on two} "
         "x some tensors not requiring grad x an extra tensor entering neither function x usage {forward, backward, "
-        "graph-recording backward + second backward, linearity triple, peer failing at its k-th entry then retry}; one torch RNG seed per run. The history of "
+        "graph-recording backward + second backward, linearity triple, peer failing at its k-th entry then retry, three successive plain backward passes}; in-place or pure custom step; non-float tuple component; one torch RNG seed per run. The history of "
         "points at which f, log p and the custom step are entered, and of RNG draws, is recorded and judged against the "
         "chain model. A case is non-trivial iff the sampler entered log p or the custom step at >=2 distinct points and "
         "a gradient was judged or nburnout>0; distinct = distinct (sampler, nsamples, nburnout, dim, f kind, parameter "
@@ -72,8 +72,9 @@ def draw_scenario(cs, cfg):
     sc["step"] = [0.5, 1.0, 0.2, 1.7][cs.draw(4, "step")]
     sc["valseed"] = cs.draw(1000, "valseed")
     sc["rng"] = cs.draw(100000, "rngseed")
-    sc["fkind"] = ["scalar", "vector", "tuple", "const", "identity", "view", "param"][
-        cs.weighted([4, 3, 3, 1, 1, 1, 1], "fkind")]
+    sc["fkind"] = ["scalar", "vector", "tuple", "const", "identity", "view", "param", "tuple_bool"][
+        cs.weighted([4, 3, 3, 1, 1, 1, 1, 1], "fkind")]
+    sc["step_inplace"] = cs.bool("step_inplace", 1, 3)
     # where the parameters live
     sc["fhold"] = ["object", "explicit"][cs.weighted([3, 2], "fhold")]
     sc["phold"] = ["object", "explicit", "same_object"][cs.weighted([2, 2, 2], "phold")]
@@ -86,7 +87,7 @@ def draw_scenario(cs, cfg):
     sc["a_grad"] = not cs.bool("a_nograd", 1, 5)
     sc["c_grad"] = not cs.bool("c_nograd", 1, 5)
     sc["zkind"] = ["tensor_grad", "tensor_nograd", "float"][cs.weighted([3, 1, 1], "zkind")]
-    sc["usage"] = ["fwd", "bwd", "bwd2", "linearity", "fault_retry"][cs.weighted([1, 4, 3, 1, 1], "usage")]
+    sc["usage"] = ["fwd", "bwd", "bwd2", "linearity", "fault_retry", "bwd_twice"][cs.weighted([1, 4, 3, 1, 1, 2], "usage")]
     sc["fault_k"] = cs.randint(1, 12, "fault_k")
     sc["lb"], sc["ub"] = [(-2.0, 2.0), (-1.0, 3.0), (float("-inf"), float("inf"))][cs.draw(3, "bounds")]
     # options for the backward pass that differ from the forward ones: the backward pass integrates over the
@@ -144,6 +145,7 @@ def build_env(sc):
         B = None
     env.pA = B
     if B is not None:
+        B.step_inplace = bool(sc["step_inplace"])
         env.pfcn = B.logp16
         env.step = B.g16
         env.pWb = lambda: (B._W(), B._b())
@@ -158,6 +160,9 @@ def build_env(sc):
 
         def gplain(x, c, z, W2, b2):
             SIM.enter("g16", (None, x))
+            if sc["step_inplace"]:
+                x.copy_(AC.g16_ref(x))
+                return x
             return AC.g16_ref(x)
         env.pfcn = pplain
         env.step = gplain
@@ -192,7 +197,7 @@ def leaves_of(env):
 
 def flat(y):
     if isinstance(y, (tuple, list)):
-        return torch.cat([t.reshape(-1) for t in y])
+        return torch.cat([t.reshape(-1).to(DT) for t in y])
     return y.reshape(-1)
 
 
@@ -265,7 +270,8 @@ def call_mcquad(env, sc, fkind, ffcn=None):
     elif sc.get("bck") == "step_size":
         opts["bck_options"] = {"step_size": 0.31}
     torch.manual_seed(sc["rng"])
-    return mcquad(ffcn or env.ffcn, env.pfcn, env.x0, fparams=fargs(env, fkind), pparams=pargs(env), **opts)
+    # a fresh copy of the start point per call: a caller-supplied in-place step advances the tensor it is given
+    return mcquad(ffcn or env.ffcn, env.pfcn, env.x0.clone(), fparams=fargs(env, fkind), pparams=pargs(env), **opts)
 
 
 def run(cs, cfg):
@@ -440,6 +446,30 @@ def run(cs, cfg):
                   "(max abs diff %.3e)" % float((r2 - rf.detach()).abs().max()))
         else:
             cnt("fault_not_reached")
+    elif sc["usage"] == "bwd_twice" and leaves and rf.requires_grad:
+        # several successive plain backward passes through the same result (retain_graph): each is judged
+        g = torch.Generator()
+        g.manual_seed(78)
+        rec.phase = "bwd"
+        for rep in range(3):
+            w = torch.rand(rf.shape, generator=g, dtype=DT) + 0.5
+            sub = leaves if rep == 2 else leaves[rep::2]
+            if not sub:
+                continue
+            gx = None
+            with warnings.catch_warnings():
+                warnings.simplefilter("ignore")
+                with rec:
+                    try:
+                        gx = torch.autograd.grad((rf * w).sum(), sub, allow_unused=True, retain_graph=True)
+                    except Exception as e:
+                        V("backward_raises", "backward pass #%d through the same result raised %s: %s" %
+                          (rep + 1, type(e).__name__, str(e)[:300]), unused_z=str(sc["zkind"] == "tensor_grad"))
+            if gx is not None:
+                gr = torch.autograd.grad((ref * w).sum(), sub, allow_unused=True, retain_graph=True) \
+                    if ref.requires_grad else [None] * len(sub)
+                judge_grads(gx, gr, sub, GTOL, "gradient_first_order", V, env)
+        cnt("reach.repeated_backward")
     elif sc["usage"] in ("bwd", "bwd2") and leaves:
         g = torch.Generator()
         g.manual_seed(77)
